@@ -1,6 +1,7 @@
 import Infretis.Model.Proto
 import Infretis.Model.Fs
 import Infretis.Model.FsRestart
+import Infretis.Model.FsCheck
 open Infretis Infretis.Proto Infretis.Fs
 
 /-!
@@ -31,6 +32,9 @@ Line protocol of the C08 driver (all tokens are naturals unless said otherwise):
         → "<disk'> | <dtmp'> | out=<restartRun now> next=<restartRun on the crashed disk> neffs=<number of effects> tmpok=0/1 present=0/1 rows=0/1 | <effects> | <restored mem after the NEXT restart> | <data file after the next restart: rows garbled torn> | <dtmp after the next restart>"
   script cfg manifest alive mem disk dtmp list<event>          (runScript; mem is ignored when alive = 0)
         → "alive=0/1 out=<restartRun now, 1 job> | <mem or -> | <disk> | <dtmp>"
+  hyp cfg mem disk choice manifest      the HYPOTHESES of the theorems (Model/FsCheck.lean) on a state + step outcome
+        → "inv=0/1 wf=0/1 cover=0/1 complete=0/1 inv2=0/1 complete2=0/1 out2=<restartOutcome after the completed step>"
+          (inv2 / complete2: Inv / Complete of the state after the completed step)
 -/
 
 abbrev P (α : Type) := List String → Option (α × List String)
@@ -241,6 +245,13 @@ def handle (toks : List String) : String :=
       let s := runScript cfg M s0 es
       let memS := match s.mem with | some m' => sMem m' | none => "-"
       s!"alive={b01 s.mem.isSome} out={sOutcome (s.restartNow cfg M 1)} | {memS} | {sDisk s.x.d} | {sDTmp s.x.dtmp}"
+    | _ => "bad-op"
+  | "hyp" :: rest =>
+    match pPair pCfg (pPair pMem (pPair pDisk (pPair pChoice pManifest))) rest with
+    | some ((cfg, m, d, c, M), []) =>
+      let m' := stepMem cfg m c d
+      let d' := run (stepEffs cfg m c d) d
+      s!"inv={b01 (invB M m d)} wf={b01 (wfB cfg M m c d)} cover={b01 (coverB m c)} complete={b01 (completeB m d)} inv2={b01 (invB M m' d')} complete2={b01 (completeB m' d')} out2={sOutcome (restartOutcome M .restartToml d')}"
     | _ => "bad-op"
   | "step" :: rest =>
     match pPair pCfg (pPair pMem (pPair pDisk pChoice)) rest with
